@@ -643,7 +643,13 @@ func runCase(work string, cs caseSpec, id int) ([]gen.Case, error) {
 		os.MkdirAll(sub, 0o755)
 		c, err := realMerge(sub, ps)
 		if err != nil {
-			return nil, fmt.Errorf("pre-merge: %w", err)
+			// the set-up merge is the code under test too: report it as a failing case instead of aborting
+			key := "merge-error"
+			if strings.Contains(err.Error(), "no branch found") {
+				key = "merge-error-no-branch-found"
+			}
+			return []gen.Case{{Class: "merge/" + cs.Class + "/setup", Go: "merge of the compound input failed: " + err.Error(),
+				Key: key, Detail: gen.Detail(cs)}}, nil
 		}
 		for _, k := range g {
 			if cs.Repos[k].Tomb {
@@ -803,6 +809,43 @@ func main() {
 		}
 		for _, c := range cases {
 			w.Emit(c)
+		}
+		// distribution of what the generated inputs exercise
+		for _, rs := range cs.Repos {
+			w.Count("repos", 1)
+			if rs.Tomb {
+				w.Count("repos-tombstoned", 1)
+			}
+			if len(rs.Docs) == 0 {
+				w.Count("repos-empty", 1)
+			}
+			if rs.ViaBuilder {
+				w.Count("repos-via-index.Builder", 1)
+			}
+			if len(rs.SubRepos) > 0 {
+				w.Count("repos-with-subrepos", 1)
+			}
+			if len(rs.Branches) > 32 {
+				w.Count("repos-over-32-branches", 1)
+			}
+			for _, d := range rs.Docs {
+				w.Count("docs", 1)
+				if d.Skip != 0 || bytes.IndexByte(d.Content, 0) >= 0 {
+					w.Count("docs-skipped", 1)
+				}
+				if d.SubRepo != "" {
+					w.Count("docs-in-subrepo", 1)
+				}
+				if len(d.Syms) > 0 {
+					w.Count("docs-with-symbols", 1)
+				}
+				if d.Language != "" {
+					w.Count("docs-language-preset", 1)
+				}
+				if len(d.Branches) > 1 {
+					w.Count("docs-on-several-branches", 1)
+				}
+			}
 		}
 	}
 	load := func(path string) (caseSpec, error) {
